@@ -85,11 +85,14 @@ pub fn prop() -> Prop {
         "C30",
         "Names and nodes are memory-safe shared values",
         "Cases: operation histories of 1-60 operations over 8 name slots, 8 Arc<str> slots and 8 node slots \
-         (Name::new / new_static / name! / TryFrom<Arc<str>> / from_arc_unchecked, clone, drop, with_location, \
-         to_cloned_arc, as_static_str, Into<Arc<str>>, eq/hash/ord probes; Node::new / new_parsed / new_str / \
-         new_str_parsed, clone, drop, make_mut + mutate, get_mut, ptr_eq, same_location, eq/hash probes), decoded \
-         from a proptest byte vector. Stage `threaded`: a sequential prefix builds the pool, then 2-4 real threads \
-         run their own histories whose operands are clones of the shared slots, then a sequential suffix. Oracle: \
+         (Name::new / try_from(&str | &String | String) / new_static / name! / TryFrom<Arc<str>> / from_arc_unchecked, \
+         constructors given non-names, clone, From<&Name>, drop, with_location, to_cloned_arc, as_static_str, \
+         Into<Arc<str>>, to_component, serde round trip, eq/hash/ord/Borrow/str-comparison/formatting probes; \
+         Node::new / new_parsed / new_str / new_str_parsed, clone, drop, make_mut + mutate, get_mut, ptr_eq, \
+         same_location, to_component, Borrow/eq/hash probes, String conversions), decoded from a proptest byte \
+         vector. Stage `threaded`: a sequential prefix builds the pool, then 2-4 real threads run their own \
+         histories (repeated 1-40 times) whose operands are clones of the shared slots, optionally handing their \
+         copies of shared values over to the main thread to be dropped there, then a sequential suffix. Oracle: \
          a plain model of every slot plus the expected strong count of every backing Arc<str> (the harness holds a \
          canary handle on each) and of a tracker Arc inside every node payload, compared after every step; at the \
          end everything is dropped, counts return to 1 and the thread's allocation counter shows no live block. \
